@@ -209,6 +209,21 @@ Proof.
   - apply Sh in L1. apply Sh in L2. cbn in L1, L2. subst. discriminate.
 Qed.
 
+(* mutual exclusion: a mutex one thread holds exclusively (by its node's certificate) is not held by another thread *)
+Lemma mutual_exclusion T roles s t1 t2 n1 n2 nd1 nd2 m e :
+  tinv T roles s -> t1 <> t2 ->
+  pc s t1 = Some n1 -> find_node T n1 = Some nd1 -> In (m, true) (n_ls nd1) ->
+  pc s t2 = Some n2 -> find_node T n2 = Some nd2 -> In (m, e) (n_ls nd2) -> False.
+Proof.
+  intros I Hne P1 F1 H1 P2 F2 H2.
+  destruct (inv_pc _ _ _ I t1 n1 P1) as (x1 & F1' & _ & Cl1). rewrite F1 in F1'. injection F1' as <-.
+  destruct (inv_pc _ _ _ I t2 n2 P2) as (x2 & F2' & _ & Cl2). rewrite F2 in F2'. injection F2' as <-.
+  pose proof (Cl1 _ _ H1) as L1. pose proof (Cl2 _ _ H2) as L2.
+  destruct (inv_wf _ _ _ I m) as [(u & E)|Sh].
+  - rewrite E in L1, L2. destruct L1 as [[= -> ]|[]]. destruct L2 as [[= -> _]|[]]. now apply Hne.
+  - apply Sh in L1. discriminate.
+Qed.
+
 (* ------------------------------------------------------------------ every execution *)
 Theorem race_free T roles sched s tr :
   table_wf T = true -> roles_ok T roles -> trun T roles tinit sched = Some (s, tr) ->
